@@ -257,12 +257,22 @@ func H_lifecycle() {
 	verifKReset()
 	var wt *Watcher
 	var err error
+	unread := 0
 	if verifBool("buffered") {
 		wt, err = NewBufferedWatcher(2)
+		unread = verifChoose("unread", 3)
 	} else {
 		wt, err = NewWatcher()
 	}
 	verifAssert(err == nil && wt != nil, "NewWatcher succeeds when inotify_init1 does")
+	// earlier events nobody has read yet: with two of them the buffer is full and the
+	// record of this history is pending in the reader when Close is called
+	for i := 0; i < unread; i++ {
+		wt.Events <- Event{Name: "/t/earlier", Op: Write}
+	}
+	if unread == 2 {
+		verifReach("lifecycle-buffer-full")
+	}
 	w := wt.b.(*inotify)
 	verifK.nIno = 3
 	nadd := verifChoose("adds", 3)
